@@ -976,6 +976,7 @@ pub fn run(ctx: &Ctx) -> Outcome {
         // the same calls from a thread-local destructor while a thread exits (see exitprobe.rs)
         let mut at_exit = Report::new();
         crate::exitprobe::check("codec", MON_W, &mut at_exit);
+        crate::exitprobe::check_migration("codec", MON_W, &mut at_exit);
         report.merge(at_exit);
     }
     let floors = vec![
